@@ -77,16 +77,22 @@ var Spaces = []Space{
 	{
 		Name: "prophotorgb", Curve: refs.ProPhoto, Pub: refs.ProPhotopub,
 		From8: prophotorgb.From8Bit, From16: prophotorgb.From16Bit, To8: prophotorgb.To8Bit, To16: prophotorgb.To16Bit,
-		FromNRGBA:        func(c color.NRGBA) (linear.RGB, float32) { v, a := prophotorgb.ColorFromNRGBA(c); return v.RGB, a },
-		FromRGBA:         func(c color.RGBA) (linear.RGB, float32) { v, a := prophotorgb.ColorFromRGBA(c); return v.RGB, a },
-		FromEncodedColor: func(c color.Color) (linear.RGB, float32) { v, a := prophotorgb.ColorFromEncodedColor(c); return v.RGB, a },
-		FromLinearColor:  func(c color.Color) (linear.RGB, float32) { v, a := prophotorgb.ColorFromLinearColor(c); return v.RGB, a },
-		ToNRGBA:          func(c linear.RGB, a float32) color.NRGBA { return prophotorgb.Color{RGB: c}.ToNRGBA(a) },
-		ToRGBA:           func(c linear.RGB, a float32) color.RGBA { return prophotorgb.Color{RGB: c}.ToRGBA(a) },
-		ToRGBA64:         func(c linear.RGB, a float32) color.RGBA64 { return prophotorgb.Color{RGB: c}.ToRGBA64(a) },
-		ToXYZ:            func(c linear.RGB) ciexyz.Color { return prophotorgb.Color{RGB: c}.ToXYZ() },
-		FromXYZ:          func(c ciexyz.Color) linear.RGB { return prophotorgb.ColorFromXYZ(c).RGB },
-		Linearise:        prophotorgb.LineariseColor, Encode: prophotorgb.EncodeColor,
+		FromNRGBA: func(c color.NRGBA) (linear.RGB, float32) { v, a := prophotorgb.ColorFromNRGBA(c); return v.RGB, a },
+		FromRGBA:  func(c color.RGBA) (linear.RGB, float32) { v, a := prophotorgb.ColorFromRGBA(c); return v.RGB, a },
+		FromEncodedColor: func(c color.Color) (linear.RGB, float32) {
+			v, a := prophotorgb.ColorFromEncodedColor(c)
+			return v.RGB, a
+		},
+		FromLinearColor: func(c color.Color) (linear.RGB, float32) {
+			v, a := prophotorgb.ColorFromLinearColor(c)
+			return v.RGB, a
+		},
+		ToNRGBA:   func(c linear.RGB, a float32) color.NRGBA { return prophotorgb.Color{RGB: c}.ToNRGBA(a) },
+		ToRGBA:    func(c linear.RGB, a float32) color.RGBA { return prophotorgb.Color{RGB: c}.ToRGBA(a) },
+		ToRGBA64:  func(c linear.RGB, a float32) color.RGBA64 { return prophotorgb.Color{RGB: c}.ToRGBA64(a) },
+		ToXYZ:     func(c linear.RGB) ciexyz.Color { return prophotorgb.Color{RGB: c}.ToXYZ() },
+		FromXYZ:   func(c ciexyz.Color) linear.RGB { return prophotorgb.ColorFromXYZ(c).RGB },
+		Linearise: prophotorgb.LineariseColor, Encode: prophotorgb.EncodeColor,
 		PrimR: func() ciexyy.Color { return prophotorgb.PrimaryRed }, PrimG: func() ciexyy.Color { return prophotorgb.PrimaryGreen },
 		PrimB: func() ciexyy.Color { return prophotorgb.PrimaryBlue }, White: func() ciexyy.Color { return prophotorgb.StandardWhitePoint },
 	},
